@@ -19,39 +19,153 @@ Inductive case :=
      GetAdditionalBucket), kept by the harness service, was later found to differ
      from what it was when handed out -- re-compared after every later operation
      and restart; a fault while reading it counts as changed *)
-  (* concurrent savers: all writes issued concurrently (service, key, marshalled
-     value); answers of loads issued while the writers ran and after they all
-     finished (service, key, answer) *)
-| CConc (names : list bytes) (writes : list (nat * bytes * bytes))
-        (during after : list (nat * bytes * res)).
+  (* concurrent savers.  [writers]: one list per saver thread, IN THE ORDER the
+     thread issued its Saves: (service, key, marshalled value), all values
+     distinct.  [loaders]: one list per loader thread, the answers of its loads
+     of ONE (service, key) in the order it got them, taken while the savers ran.
+     [after]: loads issued after all savers had returned. *)
+| CConc (names : list bytes) (writers : list (list (nat * bytes * bytes)))
+        (loaders : list (list (nat * bytes * res))) (after : list (nat * bytes * res)).
 
-(* ---- concurrent phase: any serialisation is allowed ---------------------- *)
+(* ---- concurrent phase ---------------------------------------------------- *)
+(* bbolt serialises Update transactions, so an execution is a linearisation: an
+   interleaving of the threads that keeps each thread's order
+   (Api/StorageProofs.v, [interleaving]).  By c16_concurrent_savers_quiescent_load
+   the value after quiescence is the LAST save of that key by SOME saver. *)
 
-Definition written (writes : list (nat * bytes * bytes)) (s : nat) (k v : bytes) : bool :=
-  existsb (fun w => match w with (s', k', v') => (s =? s') && bytes_eqb k k' && bytes_eqb v v' end) writes.
+Definition wr := (nat * bytes * bytes)%type.
 
-Definition any_write (writes : list (nat * bytes * bytes)) (s : nat) (k : bytes) : bool :=
-  existsb (fun w => match w with (s', k', _) => (s =? s') && bytes_eqb k k' end) writes.
+Definition same_key (s : nat) (k : bytes) (w : wr) : bool :=
+  match w with (s', k', _) => (s =? s') && bytes_eqb k k' end.
 
-(* a load running concurrently with the writers: nothing, or some written value *)
-Definition during_ok writes (l : nat * bytes * res) : bool :=
+(* the values one saver wrote to (s, k), in its order *)
+Definition wkey (w : list wr) (s : nat) (k : bytes) : list bytes :=
+  map (fun x => snd x) (filter (same_key s k) w).
+
+Definition wlast (w : list wr) (s : nat) (k : bytes) : option bytes :=
+  match rev (wkey w s k) with v :: _ => Some v | [] => None end.
+
+(* PROPERTY (clause 6) for a load after quiescence: the last save of that key by
+   some saver -- not a value its own writer overwrote -- and nothing only if no
+   saver wrote the key *)
+Definition after_ok (writers : list (list wr)) (l : nat * bytes * res) : bool :=
+  match l with
+  | (s, k, RNone) => forallb (fun w => match wlast w s k with None => true | Some _ => false end) writers
+  | (s, k, RBytes v) => existsb (fun w => match wlast w s k with Some v' => bytes_eqb v v' | None => false end) writers
+  | _ => false
+  end.
+
+(* ... and for a load while the savers run: nothing, or a value some saver wrote there *)
+Definition during_ok (writers : list (list wr)) (l : nat * bytes * res) : bool :=
   match l with
   | (s, k, RNone) => true
-  | (s, k, RBytes v) => written writes s k v
+  | (s, k, RBytes v) => existsb (fun w => existsb (bytes_eqb v) (wkey w s k)) writers
   | _ => false
   end.
 
-(* a load after all writers finished: one of the values written to that key of
-   that service; nothing only if nobody wrote it *)
-Definition after_ok writes (l : nat * bytes * res) : bool :=
+Definition conc_ok writers (loaders : list (list (nat * bytes * res))) after : bool :=
+  forallb (forallb (during_ok writers)) loaders && forallb (after_ok writers) after.
+
+(* MODEL AGREEMENT: is there a linearisation that keeps every saver's order and
+   explains the answers every loader got, in the order it got them, and the
+   answers after quiescence?  Savers of different keys and loaders of different
+   keys do not constrain each other (each thread works on one key), so this is
+   decided key by key.  Values being distinct, an answer v pins the moment "the
+   latest save is v".  A linearisation exists iff the answers of a loader, with
+   consecutive repetitions collapsed, never return to an earlier value, never
+   show two saves of the SAME saver against that saver's order, show "nothing"
+   only before any value, and the answer after quiescence is the last save of
+   its saver.  (Necessity is immediate; sufficiency: the constraint graph made of
+   the savers' chains and the chain of observed saves is then acyclic.  This
+   criterion is executable Gallina, not proved equivalent to [interleaving].) *)
+
+Fixpoint index_of (v : bytes) (l : list bytes) (i : nat) : option nat :=
   match l with
-  | (s, k, RNone) => negb (any_write writes s k)
-  | (s, k, RBytes v) => written writes s k v
-  | _ => false
+  | [] => None
+  | x :: r => if bytes_eqb v x then Some i else index_of v r (S i)
   end.
 
-Definition conc_ok writes during after : bool :=
-  forallb (during_ok writes) during && forallb (after_ok writes) after.
+Fixpoint find_w (ws : list (list wr)) (s : nat) (k v : bytes) (j : nat) : option (nat * nat) :=
+  match ws with
+  | [] => None
+  | w :: r => match index_of v (wkey w s k) 0 with
+              | Some i => Some (j, i)
+              | None => find_w r s k v (S j)
+              end
+  end.
+
+Definition pos_eqb (a b : nat * nat) : bool := (fst a =? fst b) && (snd a =? snd b).
+
+(* may the save at [p] be observed after all the saves in [seen]? *)
+Definition later_than (seen : list (nat * nat)) (p : nat * nat) : bool :=
+  forallb (fun q => negb (pos_eqb q p) && (negb (fst q =? fst p) || (snd q <? snd p))) seen.
+
+(* walk the answers of one thread for key (s, k); cur = save currently observed *)
+Fixpoint lin_walk (ws : list (list wr)) (s : nat) (k : bytes)
+         (cur : option (nat * nat)) (seen : list (nat * nat)) (obs : list res)
+  : option (option (nat * nat)) :=
+  match obs with
+  | [] => Some cur
+  | RNone :: r => match cur with None => lin_walk ws s k cur seen r | Some _ => None end
+  | RBytes v :: r =>
+      match find_w ws s k v 0 with
+      | None => None
+      | Some p =>
+          match cur with
+          | Some c => if pos_eqb c p then lin_walk ws s k cur seen r
+                      else if later_than seen p then lin_walk ws s k (Some p) (p :: seen) r else None
+          | None => lin_walk ws s k (Some p) (p :: seen) r
+          end
+      end
+  | _ :: _ => None
+  end.
+
+(* the final answer must be the last save of its saver (or no saver wrote the key) *)
+Definition final_ok (ws : list (list wr)) (s : nat) (k : bytes) (cur : option (nat * nat)) : bool :=
+  match cur with
+  | None => forallb (fun w => match wkey w s k with [] => true | _ => false end) ws
+  | Some (j, i) => match nth_error ws j with
+                   | Some w => S i =? length (wkey w s k)
+                   | None => false
+                   end
+  end.
+
+Definition key_of (l : list (nat * bytes * res)) : option (nat * bytes) :=
+  match l with (s, k, _) :: _ => Some (s, k) | [] => None end.
+
+Definition one_key (s : nat) (k : bytes) (l : list (nat * bytes * res)) : bool :=
+  forallb (fun x => match x with (s', k', _) => (s =? s') && bytes_eqb k k' end) l.
+
+Definition lin_thread (ws : list (list wr)) (loader : list (nat * bytes * res))
+           (after : list (nat * bytes * res)) : bool :=
+  match key_of loader with
+  | None => true
+  | Some (s, k) =>
+      one_key s k loader &&
+      forallb (fun a => match a with (s', k', r) =>
+                 if (s =? s') && bytes_eqb k k'
+                 then match lin_walk ws s k None [] (map (fun x => snd x) loader ++ [r]) with
+                      | Some cur => final_ok ws s k cur
+                      | None => false
+                      end
+                 else true end) after
+  end.
+
+Fixpoint distinct (l : list bytes) : bool :=
+  match l with
+  | [] => true
+  | x :: r => negb (existsb (bytes_eqb x) r) && distinct r
+  end.
+
+Definition lin_ok (ws : list (list wr)) loaders after : bool :=
+  distinct (map (fun x => snd x) (concat ws)) &&
+  forallb (fun l => lin_thread ws l after) loaders &&
+  (* keys without a loader: the answer after quiescence alone *)
+  forallb (fun a => match a with (s, k, r) =>
+             match lin_walk ws s k None [] [r] with
+             | Some cur => final_ok ws s k cur
+             | None => false
+             end end) after.
 
 (* ---- agreement with the model ------------------------------------------- *)
 
@@ -61,7 +175,7 @@ Definition agree (c : case) : bool :=
       (* values are immutable in the model: nothing handed out ever changes *)
       ress_eqb (houts dec names (map fst hist)) (map snd hist) &&
       match changed with [] => true | _ => false end
-  | CConc names writes during after => conc_ok writes during after
+  | CConc names writers loaders after => lin_ok writers loaders after
   end.
 
 Definition mismatches (l : list case) : list nat := mism_idx agree l.
@@ -74,8 +188,9 @@ Definition mismatches (l : list case) : list nat := mism_idx agree l.
    3 the database version read is not the one this service saved last (0 if none)
    4 an additional bucket of this service does not return what this service put last
    5 crash (nil bucket)
-   6 concurrent savers: a load returned a value nobody wrote to that key of that
-     service, or an error, or nothing after a completed write
+   6 concurrent savers: a load after all savers returned does not yield the LAST save
+     of that key by some saver (a value its own writer overwrote later counts as
+     lost update), or a load during the phase yields a value nobody wrote there / an error
    8 a Save reported success but a later load of that key (before the next successful
      save of it) by the same service does not return exactly that value (any key)
    7 a value handed to the service (loaded bytes, decoded []byte field, additional
@@ -90,8 +205,8 @@ Definition check (c : case) : list nat :=
         clause 5 (forallb (fun x => negb (is_crash (snd x))) hist) ++
         (* clause 7 holds for any names: a value handed to a service is the service's *)
         clause 7 (match changed with [] => true | _ => false end)
-    | CConc names writes during after =>
-        if names_ok names then clause 6 (conc_ok writes during after) else []
+    | CConc names writers loaders after =>
+        if names_ok names then clause 6 (conc_ok writers loaders after) else []
     end.
 
 Definition violations (l : list case) : list (nat * nat) := viols check l.
